@@ -75,3 +75,33 @@ add({"name": "VolumeAccess_read_block", "file": "dfs/dfs_volume.h",
      "post": "#undef origin_\n#undef len_\n",
      "rules": [(r"return std::nullopt;", "{ opt_SectorBuffer none_; none_.has = 0; return none_; }", 1),
                (r"underlying_\.read_block\(", "DataAccess_read_block(self->underlying_, ", 1)]})
+
+# ---- img_fileio.cc / img_sdf.cc / dfs.h (C04, C17) ---------------------------------------------
+FV_PRE = "#define initial_skip_ (self->initial_skip_)\n#define take_ (self->take_)\n#define leave_ (self->leave_)\n#define total_ (self->total_)\n"
+FV_POST = "#undef initial_skip_\n#undef take_\n#undef leave_\n#undef total_\n"
+NULLOPT_SB = (r"return std::nullopt;", "{ opt_SectorBuffer none_; none_.has = 0; return none_; }")
+add({"name": "safe_unsigned_multiply_ul", "file": "dfs/dfs.h",
+     "anchor": r"template <typename T> T safe_unsigned_multiply\(T a, T b\)",
+     "sig": "static unsigned long safe_unsigned_multiply_ul(unsigned long a, unsigned long b)",
+     "rules": [(r"static_assert\(std::numeric_limits<T>::is_integer\s*&& !std::numeric_limits<T>::is_signed\);", "/* static_assert dropped: T = unsigned long */", 1),
+               (r"\bT\(", "(unsigned long)(", 2),
+               (r"std::numeric_limits<T>::max\(\)", "ULONG_MAX", 1),
+               (r'throw std::range_error\("[^"]*"\);', "{ VERIF_THROW(Other, 0); return 0; }", 1)],
+     "dropped": ["static_assert on the template parameter"]})
+add({"name": "FileView_read_block", "file": "dfs/img_fileio.cc",
+     "anchor": r"std::optional<DFS::SectorBuffer> FileView::read_block\(unsigned long sector\)",
+     "sig": "static opt_SectorBuffer FileView_read_block(struct FileView *self, unsigned long sector)",
+     "pre": FV_PRE, "post": FV_POST,
+     "rules": [(NULLOPT_SB[0], NULLOPT_SB[1], 2),
+               (r"safe_unsigned_multiply\(", "safe_unsigned_multiply_ul(", 1),
+               (r"static_cast<unsigned long>\(", "(unsigned long)(", 1),
+               (r"return media_\.read_block\(pos\);", "if (g_exc) { opt_SectorBuffer none_; none_.has = 0; return none_; } return DataAccess_read_block(self->media_, pos);", 1)]})
+add({"name": "FilePresentedBlockwise_read_block", "file": "dfs/img_sdf.cc",
+     "anchor": r"std::optional<SectorBuffer> FilePresentedBlockwise::read_block\(unsigned long lba\)",
+     "sig": "static opt_SectorBuffer FilePresentedBlockwise_read_block(struct FilePresentedBlockwise *self, unsigned long lba)",
+     "rules": [(r"DFS::SECTOR_BYTES", "SECTOR_BYTES", 4),
+               (r"std::vector<byte> got = f_\.read\(pos, SECTOR_BYTES\);", "struct bytevec got = FileAccess_read(self->f_, pos, SECTOR_BYTES);", 1),
+               (r"got\.size\(\)", "got.n", 2), ASSERT(1),
+               (NULLOPT_SB[0], NULLOPT_SB[1], 1),
+               (r"std::copy\(got\.begin\(\), got\.end\(\), buf\.begin\(\)\);", "bytevec_copy(&got, buf.d);", 1),
+               (r"return buf;", "{ opt_SectorBuffer some_; some_.has = 1; some_.val = buf; return some_; }", 1)]})
